@@ -220,6 +220,30 @@ def h_specific(E, expr):
         return type(e).__name__
 
 
+BLANK_ITEMS = ['', ' ', '\t', '\u00a0', '\u3000', ' \t ', '\n', '\x0b', '\u2003']
+
+
+def h_blank_items(E, delim):
+    """a list item made of whitespace only - any whitespace str.strip() removes, not just the space bar - is a blank item: MissingInput when
+    missing_error is on (the default), graded as an item when it is off"""
+    from mitxgraders import SingleListGrader, StringGrader
+    from mitxgraders.exceptions import MissingInput, MITxError
+    blank = E.choice('blank', BLANK_ITEMS)
+    pos = E.fork_int('position', 0, 2)
+    items = ['a', 'b', 'c']
+    items[pos] = blank
+    text = delim.join(items)
+    g = SingleListGrader(answers=['a', 'b', 'c'], subgrader=StringGrader(), delimiter=delim)
+    try:
+        g(None, text)
+        E.check('blank-item-raises-MissingInput', False)
+    except MissingInput:
+        E.check('blank-item-raises-MissingInput', True)
+    r = SingleListGrader(answers=['a', 'b', 'c'], subgrader=StringGrader(), delimiter=delim, missing_error=False)(None, text)
+    E.check('blank-item-graded-when-missing_error-off', r['ok'] == 'partial')
+    return 'ok'
+
+
 def h_scope_sequence(E):
     """the same text graded first by a grader that knows a name (user function, matrix function, metric suffix) and then by one that does not: the second
     call reports the specific undefined-name error it would report in a fresh process - not the generic 'Could not check input'"""
@@ -391,6 +415,8 @@ def harnesses(tier):
 
     def add(fn, base, params, bounds, **kw):
         hs.append(Harness(pname(base, **params), fn, tuple(params.values()), FUNCS, bounds, STUBS, **kw))
+    for delim in (',', ';'):
+        add(h_blank_items, 'blank_items', dict(delim=delim), '9 whitespace-only items x 3 positions', validate=False)
     add(h_scope_sequence, 'scope_sequence', {}, '4 kinds of names known to one grader and not to the next; symbolic constant')
     for expr in SPECIFIC:
         add(h_specific, 'specific', dict(expr=expr), 'symbolic constant')
